@@ -1,118 +1,42 @@
 """C15 -- Spinner returns the function's own result and restores the process.
 
-Pairing / ordering rules on the exceptional CFG of Spinner.run, not_reentrant
-and the helpers.  Timing (before / equal / after the timeout) and what the
-reactor holds at run time are not decided here.
+Spinner.run is interpreted abstractly against a modelled reactor (rules/spinnermodel.py): one run per kind of
+user function (returns / raises / returns a Deferred that fired, failed or is pending) and per *script* of reactor
+events (the Deferred fires or fails, the timeout call runs, a signal handler calls reactor.stop -- also two of
+them in the same reactor iteration, in both orders).  Every rule is read off the ordered call log, the outcome
+and the final state of those runs; not_reentrant is interpreted over the one boolean it guards.  Wall-clock
+timing and what a real reactor holds are not decided.
 """
 
 import ast
 
+from .. import effects
 from ..absint import FALSE, NONE, TOP, TRUE, DefaultDomain, Interp, State, exc, val
-from ..astutil import FUNC_TYPES, attr_chain, dotted, norm, walk_shallow
-from ..cfg import live_nodes, node_calls, node_exprs
+from ..astutil import FUNC_TYPES, dotted, norm
 from ..loader import AnalysisError
-from .common import SPINNER, cfg_of, module_function, nodes_calling, own_method
+from .common import SPINNER, module_function, own_method
+from . import spinnermodel as sm
 
 EXPLANATION = (
-    "Pairing and ordering rules on the exceptional CFG (finally/with cloned per exit kind) of "
-    "testtools.twistedsupport._spinner: R-RESTORE-STOP (every path from the statement that "
-    "replaces reactor.stop to any exit re-installs the saved value), R-RESTORE-SIGNALS (signals "
-    "saved before reactor.run() and restored on every path out of it, save/restore cover the "
-    "three preserved signals pairwise), R-CLEAN-ALWAYS (the result is fetched inside a try whose "
-    "finally cleans the reactor; _clean cancels and records every delayed call and selectable), "
-    "R-STALE-JUNK-FIRST (the junk refusal dominates every mutation), R-REENTRANCY-FLAG (flag set "
-    "after the re-entry test and cleared on all paths), R-RESULT-3WAY / R-CALLBACK-SIBLINGS (the "
-    "result is exactly failure->raise, success->return, neither->NoResultError; both callbacks "
-    "cancel the timeout and store into distinct fields; the timeout stores a TimeoutError and "
-    "stops the reactor), R-RESULT-RESET (result fields of a previous run cannot leak into this "
-    "run). Timing relative to the timeout and real reactor/signal state are runtime quantities "
-    "and are not decided."
+    "Abstract runs of testtools.twistedsupport._spinner.Spinner.run against a modelled reactor (effect log + "
+    "Twisted's Deferred chains as abstract values), for every kind of user function (returns, raises, returns a "
+    "Deferred that has fired / failed / is pending) and every script of reactor events (Deferred fires or fails, "
+    "timeout call runs, reactor.stop is called by a signal handler; pairs of them within one reactor iteration in "
+    "both orders), on a spinner that was used before. R-RESULT-3WAY: run() returns the function's value / its "
+    "Deferred's result, raises its exception / its Deferred's failure, raises TimeoutError(function, timeout) when "
+    "only the timeout fired and NoResultError when the reactor was stopped first; the function is called once with "
+    "the given arguments and the reactor never spins for ever. R-TIMEOUT-WINS / R-CALLBACK-SIBLINGS: a result "
+    "arriving in the same iteration after the timeout does not replace the TimeoutError; a result arriving first "
+    "cancels the timeout call. R-RESULT-RESET: results of a previous run never show. R-RESTORE-STOP: reactor.stop "
+    "is the crash substitute while spinning (the real stop is never called) and the original afterwards. "
+    "R-RESTORE-SIGNALS: every available preserved signal (table covers SIGINT/SIGTERM/SIGCHLD) is saved before "
+    "and re-installed with its own handler after reactor.run() on every path, none when the platform lacks it. "
+    "R-CLEAN-ALWAYS: after run() returned or raised, every leftover delayed call was cancelled, selectables "
+    "removed, and all of them are remembered as junk. R-STALE-JUNK-FIRST: with uncleared junk run() raises "
+    "StaleJunkError(junk) before touching reactor, signals or results. R-REENTRANCY-FLAG: not_reentrant marks the "
+    "function while it runs, unmarks on return and on any exception, refuses nested entry without clearing the "
+    "mark. Wall-clock timing and real reactor state are not decided."
 )
-
-
-def assign_pairs(stmt):
-    """(target, value) pairs of an Assign, splitting parallel tuple assignment."""
-    if not isinstance(stmt, ast.Assign):
-        return []
-    out = []
-    for t in stmt.targets:
-        if (
-            isinstance(t, (ast.Tuple, ast.List))
-            and isinstance(stmt.value, (ast.Tuple, ast.List))
-            and len(t.elts) == len(stmt.value.elts)
-        ):
-            out.extend(zip(t.elts, stmt.value.elts))
-        else:
-            out.append((t, stmt.value))
-    return out
-
-
-class _LateResultDomain(DefaultDomain):
-    """Spinner callbacks over a DelayedCall typestate: self._timeout_call is pending, called or
-    cancelled; cancel() on a call that is no longer pending raises (twisted.internet.base.DelayedCall:
-    AlreadyCalled / AlreadyCancelled), active() is true only while pending."""
-
-    def __init__(self, classes):
-        self.classes = classes
-
-    def load_attr(self, chain, st, fr):
-        if chain == ["self", "_UNSET"]:
-            return ("const", "UNSET")
-        return None
-
-    def truth(self, value):
-        if value == ("const", "UNSET"):
-            return "T"
-        return super().truth(value)
-
-    def compare(self, op, left, right):
-        unset = ("const", "UNSET")
-        if isinstance(op, (ast.Is, ast.IsNot)) and unset in (left, right):
-            other = right if left == unset else left
-            if isinstance(other, tuple) and other != TOP:
-                same = other == unset
-                return "T" if same == isinstance(op, ast.Is) else "F"
-        return None
-
-    def call(self, interp, call, st, fr):
-        d = dotted(call.func)
-        ch = attr_chain(call.func)
-        tc = st.get("tc", "pending")
-        if d == "self._timeout_call.cancel":
-            if tc == "pending":
-                return [val(NONE, st.set("tc", "cancelled"))]
-            return [exc(("twisted", "AlreadyCalled" if tc == "called" else "AlreadyCancelled"), st)]
-        if d == "self._timeout_call.active":
-            return [val(TRUE if tc == "pending" else FALSE, st)]
-        if d == "TimeoutError":
-            return [val(("timeout-exc",), st)]
-        if d == "Failure":
-            out = []
-            for r in interp.eval_list(list(call.args), st, fr):
-                out.append(r if r.kind == "exc" else val(("timeout",) if r.value and r.value[0] == ("timeout-exc",) else ("failure", "other"), r.state))
-            return out
-        if ch and ch[-1] == "raiseException" and len(ch) == 3 and ch[0] == "self":
-            return [exc(("failure-raised", st.get("self." + ch[1], TOP)), st)]
-        if d == "NoResultError":
-            return [val(("no-result",), st)]
-        if ch and ch[0] == "self" and len(ch) == 2 and fr.receiver is not None:
-            owner, f = self.classes.resolve_method(fr.receiver, ch[1])
-            if isinstance(f, FUNC_TYPES) and owner is not None and not owner.external:
-                params = [p_.arg for p_ in f.args.args][1:]
-                out = []
-                for r in interp.eval_list(list(call.args), st, fr):
-                    if r.kind == "exc":
-                        out.append(r)
-                        continue
-                    out.extend(interp.inline(f, {params[i]: v for i, v in enumerate(r.value) if i < len(params)}, r.state, fr, receiver=fr.receiver))
-                return out
-        out = []
-        for r in interp.eval_list([a for a in call.args if not isinstance(a, ast.Starred)], st, fr):
-            out.append(r if r.kind == "exc" else val(TOP, r.state))
-        return out
-
-    def raised_value(self, stmt, value, st, fr):
-        return value if isinstance(value, tuple) else ("raised", norm(stmt.exc)[:30])
 
 
 class _GuardDomain(DefaultDomain):
@@ -179,6 +103,17 @@ class _GuardDomain(DefaultDomain):
     def raised_value(self, stmt, value, st, fr):
         return value if isinstance(value, tuple) else ("raised", norm(stmt.exc)[:30])
 
+    def match(self, handler_type, excvalue, st):
+        # the guarded function may raise anything: only a catch-all handler is sure to see it
+        if handler_type is None:
+            return "yes"
+        names = [norm(t).split(".")[-1] for t in (handler_type.elts if isinstance(handler_type, ast.Tuple) else [handler_type])]
+        if "BaseException" in names:
+            return "yes"
+        if excvalue == ("reentry",):
+            return "yes" if {"ReentryError", "Exception"} & set(names) else "no"
+        return "maybe"
+
 
 def check_reentrancy_guard(ctx):
     nr = module_function(ctx, SPINNER, "not_reentrant")
@@ -237,410 +172,178 @@ def check_reentrancy_guard(ctx):
     ctx.check("R-REENTRANCY-FLAG", "not_reentrant returns the wrapper", nr, ok, "the decorator does not return its guarding wrapper", construct=f"{SPINNER}:not_reentrant::returns-wrapper")
 
 
-def check_timeout_wins(ctx):
-    spinner = ctx.classes.get(SPINNER, "Spinner")
-    dom = _LateResultDomain(ctx.classes)
+# scenario: (rule, user function kind, script of reactor iterations, expected outcome, description)
+def _timeout_error(kind):
+    return ("exc-value", ("new", "TimeoutError", (sm.userfn(kind), sm.TIMEOUT), ()))
 
-    def go(name, argvals, st):
-        owner, f = ctx.classes.resolve_method(spinner, name)
-        if not isinstance(f, FUNC_TYPES):
-            raise AnalysisError(f"anchor vanished: Spinner.{name}")
-        it = Interp(dom, max_depth=6)
-        res = it.analyze(f, argvals, st, receiver=spinner, name=name)
-        ctx.stats["states"] += it.steps
-        for fn in it.functions:
-            ctx.analysed(fn)
-        return res
 
-    def keep(st):
-        return State([(k, v) for k, v in st.items if k.startswith("self.") or k == "tc"])
+SCENARIOS = [
+    ("R-RESULT-3WAY", "value", [["start"]], ("val", sm.USER_VALUE), "the function returns a value"),
+    ("R-RESULT-3WAY", "raise", [["start"]], ("exc", sm.USER_EXC), "the function raises"),
+    ("R-RESULT-3WAY", "fired-ok", [["start"]], ("val", sm.USER_VALUE), "the function returns a Deferred that has fired"),
+    ("R-RESULT-3WAY", "fired-fail", [["start"]], ("exc", sm.USER_EXC), "the function returns a Deferred that has failed"),
+    ("R-RESULT-3WAY", "pending", [["start"], ["fire-ok"]], ("val", sm.USER_VALUE), "the Deferred fires before the timeout"),
+    ("R-RESULT-3WAY", "pending", [["start"], ["fire-fail"]], ("exc", sm.USER_EXC), "the Deferred fails before the timeout"),
+    ("R-RESULT-3WAY", "pending", [["start"], ["timeout"]], "timeout", "the Deferred has not fired when the timeout elapses"),
+    ("R-RESULT-3WAY", "pending", [["start"], ["stop"]], ("exc", ("exc", "NoResultError")), "reactor.stop is requested (SIGINT) before the Deferred fires"),
+    ("R-TIMEOUT-WINS", "pending", [["start"], ["timeout", "fire-ok"]], "timeout", "the timeout fires, then the Deferred fires in the same reactor iteration"),
+    ("R-TIMEOUT-WINS", "pending", [["start"], ["timeout", "fire-fail"]], "timeout", "the timeout fires, then the Deferred fails in the same reactor iteration"),
+    ("R-CALLBACK-SIBLINGS", "pending", [["start"], ["fire-ok", "timeout"]], ("val", sm.USER_VALUE), "the Deferred fires, then the timeout is due in the same reactor iteration"),
+    ("R-CALLBACK-SIBLINGS", "pending", [["start"], ["fire-fail", "timeout"]], ("exc", sm.USER_EXC), "the Deferred fails, then the timeout is due in the same reactor iteration"),
+    ("R-RESTORE-STOP", "pending", [["start"], ["raise"]], ("exc", ("exc", "ReactorError")), "reactor.run() itself raises"),
+    ("R-RESULT-3WAY", "pending", [["start"], ["stop", "fire-ok"]], ("val", sm.USER_VALUE), "a stop request and the Deferred's result arrive in the same reactor iteration"),
+]
 
-    s0 = State([("tc", "called"), ("self._timeout_call", ("obj", "delayedcall")), ("self._success", ("const", "UNSET")), ("self._failure", ("const", "UNSET")), ("self._spinning", TRUE)])
-    after_timeout = {keep(r.state) for r in go("_timed_out", {"function": TOP, "timeout": TOP}, s0) if r.kind == "val"}
-    ok0 = bool(after_timeout) and all(s.get("self._failure") == ("timeout",) for s in after_timeout)
-    to = own_method(ctx, SPINNER, "Spinner", "_timed_out")
-    ctx.check("R-TIMEOUT-WINS", "_timed_out leaves a TimeoutError failure in self._failure", to, ok0,
-              "after the timeout call has run, self._failure does not hold Failure(TimeoutError(...))", construct=f"{SPINNER}:Spinner._timed_out::stores-timeout")
-    for cb in ("_got_success", "_got_failure"):
-        f = own_method(ctx, SPINNER, "Spinner", cb)
-        param = f.args.args[1].arg
-        finals = []
-        for s1 in after_timeout:
-            for r in go(cb, {param: ("late-result",)}, s1):
-                how = "returns" if r.kind == "val" else f"raises {r.value[1] if isinstance(r.value, tuple) and len(r.value) > 1 else r.value}"
-                for r2 in go("_get_result", {}, keep(r.state)):
-                    finals.append((how, r2))
-        bad = [(how, r2) for how, r2 in finals if not (r2.kind == "exc" and r2.value == ("failure-raised", ("timeout",)))]
-        msg = ""
-        if bad:
-            how, r2 = bad[0]
-            msg = (f"the timeout fires first (the DelayedCall is no longer active), then {cb} runs with the Deferred's late result and {how}; afterwards "
-                   f"_get_result {'returns ' + repr(r2.value) if r2.kind == 'val' else 'raises ' + repr(r2.value)} instead of raising the TimeoutError: "
-                   "a Deferred that had not fired when the timeout elapsed decides what Spinner.run reports")
-        ctx.check("R-TIMEOUT-WINS", f"timeout, then {cb}(late result): _get_result still raises the TimeoutError", f, bool(finals) and not bad, msg or "no path explored",
-                  examined=len(finals), construct=f"{SPINNER}:Spinner.{cb}::late-result")
-    # the ordinary order: the Deferred fires while the timeout call is still pending
-    s_p = State([("tc", "pending"), ("self._timeout_call", ("obj", "delayedcall")), ("self._success", ("const", "UNSET")), ("self._failure", ("const", "UNSET")), ("self._spinning", TRUE)])
-    for cb, want in (("_got_success", ("val", ("result",))), ("_got_failure", ("exc", ("failure-raised", ("result",))))):
-        f = own_method(ctx, SPINNER, "Spinner", cb)
-        param = f.args.args[1].arg
-        outs = go(cb, {param: ("result",)}, s_p)
-        finals = []
-        ok = bool(outs)
-        why = ""
-        for r in outs:
-            if r.kind != "val":
-                ok, why = False, f"{cb} raises {r.value!r} although the timeout call is still pending"
+
+def _show(outcome):
+    kind, v = outcome
+    if kind == "val":
+        return f"returns {v!r}"
+    if isinstance(v, tuple) and v[:2] == ("new", "TimeoutError"):
+        return f"raises TimeoutError{v[2]!r}"
+    return f"raises {v!r}"
+
+
+def check_spinner_scenarios(ctx):
+    Q = f"{SPINNER}:Spinner.run"
+    restore_stop, restore_sig, clean, reset = set(), set(), set(), set()
+    n_total = 0
+    run_f = None
+    for rule, kind, script, want, what in SCENARIOS:
+        for debug in (False, True):
+            run_f, res = sm.run_spinner(ctx, kind, script, debug=debug)
+            n_total += len(res)
+            problems = set()
+            label = f"{what} [{kind}; {' | '.join(','.join(it) for it in script)}]"
+            if not res:
+                problems.add("no path of run() could be followed")
+            for r in res:
+                log = r.state.get("ev.calls", ())
+                if r.state.get("ev.calls.overflow", 0):
+                    raise AnalysisError("Spinner.run: the call log of the abstract run overflowed")
+                names = [e[0] for e in log]
+                got = (r.kind, r.value)
+                expected = ("exc", ("new", "TimeoutError", (sm.userfn(kind), sm.TIMEOUT), ())) if want == "timeout" else want
+                if r.kind == "exc" and r.value == ("exc", "ReactorSpinsForEver"):
+                    problems.add("nothing stops the reactor: run() never returns")
+                    continue
+                if got != expected:
+                    stale = got in (("val", ("sym", "stale-success")), ("exc", ("exc", "StaleError")))
+                    (reset if stale else problems).add(f"when {what}, run() {_show(got)}" + (" -- the outcome of the spinner's previous run" if stale else f"; expected: {_show(expected)}"))
+                calls_ = [e for e in log if e[0] == "user-function"]
+                if len(calls_) != 1 or calls_[0][1] != (sm.A1,) or dict(calls_[0][2]) != {"k": sm.K1}:
+                    problems.add(f"the function is called {len(calls_)} time(s)" + ("" if len(calls_) != 1 else " but not with the given arguments"))
+                if "reactor.run" in names and calls_ and names.index("user-function") < names.index("reactor.run"):
+                    problems.add("the function is called before the reactor runs")
+                later = [e for e in log if e[0] == "reactor.callLater"]
+                if len(later) != 1 or later[0][1][:1] != (sm.TIMEOUT,):
+                    problems.add("the timeout call is not scheduled once with the given timeout")
+                # -- what run() leaves behind, whatever happened
+                if r.state.get("self._reactor.stop", sm.REAL_STOP) != sm.REAL_STOP:
+                    restore_stop.add(f"[{label}] reactor.stop is still {r.state.get('self._reactor.stop')!r} after run()")
+                if r.state.get("ev.stopped_for_good", False):
+                    restore_stop.add(f"[{label}] the real reactor.stop ran while spinning: this reactor can never be started again")
+                if "reactor.run" in names:
+                    ri = names.index("reactor.run")
+                    saved = [e[1][0] for e in log[:ri] if e[0] == "signal.getsignal"]
+                    restored = [e[1] for e in log[ri:] if e[0] == "signal.signal"]
+                    nums = [("const", n_) for n_ in sm.SIGNUMS.values()]
+                    if sorted(map(repr, saved)) != sorted(map(repr, nums)):
+                        restore_sig.add(f"[{label}] the handlers saved before reactor.run() are those of {saved}; expected SIGINT, SIGTERM, SIGCHLD")
+                    if sorted(map(repr, restored)) != sorted(repr((n_, ("handler-of", n_))) for n_ in nums):
+                        restore_sig.add(f"[{label}] after reactor.run() the handlers re-installed are {restored}; expected each preserved signal with its own saved handler")
+                    if any(e[0] == "signal.signal" for e in log[:ri]):
+                        restore_sig.add(f"[{label}] signal handlers are changed before the reactor runs")
+                    if r.state.get("self._saved_signals", None) != ("tuple",):
+                        restore_sig.add(f"[{label}] the saved handlers are kept after being restored (a later restore would install stale handlers)")
+                    if r.kind == "exc" and r.value == ("exc", "ReactorError"):
+                        continue   # run() does not promise a clean reactor when the reactor itself broke
+                    cancels = {e[0] for e in log[ri:] if e[0].endswith(".cancel") and e[0].startswith("leftover-")}
+                    if cancels != {"leftover-call-1.cancel", "leftover-call-2.cancel"}:
+                        clean.add(f"[{label}] leftover delayed calls are not all cancelled after the run ({sorted(cancels)})")
+                    if "reactor.removeAll" not in names[ri:]:
+                        clean.add(f"[{label}] selectables are not removed from the reactor after the run")
+                    junk = r.state.get("self._junk", None)
+                    if not (isinstance(junk, tuple) and sorted(map(repr, junk[1:])) == sorted(map(repr, [sm.DC1, sm.DC2, sm.SEL1]))):
+                        clean.add(f"[{label}] the junk remembered after the run is {junk!r}; expected the two delayed calls and the selectable found")
+                if r.state.get("ev.running", False):
+                    clean.add(f"[{label}] run() ends while the reactor is still running")
+            if debug and not problems:
                 continue
-            if r.state.get("tc") != "cancelled":
-                ok, why = False, f"{cb} returns without cancelling the pending timeout call: the timeout would still fire (and crash a later reactor run)"
-            for r2 in go("_get_result", {}, keep(r.state)):
-                finals.append(r2)
-                if (r2.kind, r2.value) != want:
-                    ok, why = False, f"after {cb}(result), _get_result {'returns' if r2.kind == 'val' else 'raises'} {r2.value!r} instead of {'returning the result' if want[0] == 'val' else 'raising the failure'}"
-        ctx.check("R-CALLBACK-SIBLINGS", f"{cb}(result) while the timeout is pending: cancels it; _get_result then {'returns the result' if want[0] == 'val' else 'raises the failure'}", f, ok and bool(finals), why or "no path explored",
-                  examined=len(finals), construct=f"{SPINNER}:Spinner.{cb}::in-time")
-    ctx.assume("twisted DelayedCall.cancel() raises AlreadyCalled / AlreadyCancelled unless the call is still pending; active() is true only while pending")
+            ctx.check(rule, f"Spinner.run: {what}" + (" (debug)" if debug else ""), run_f, not problems, "; ".join(sorted(problems)), examined=len(res),
+                      construct=f"{Q}::{kind} {'|'.join(','.join(it) for it in script)}")
+    ctx.check("R-RESULT-RESET", "results of a previous run of the same spinner never show", run_f, not reset, "; ".join(sorted(reset)[:3]), examined=n_total, construct=f"{Q}::reset")
+    ctx.check("R-RESTORE-STOP", "reactor.stop is the crash substitute while spinning and the original afterwards, on every path", run_f, not restore_stop,
+              "; ".join(sorted(restore_stop)[:3]), examined=n_total, construct=f"{Q}::restore-stop")
+    ctx.check("R-RESTORE-SIGNALS", "every preserved signal's handler is saved before and re-installed after reactor.run(), on every path", run_f, not restore_sig,
+              "; ".join(sorted(restore_sig)[:3]), examined=n_total, construct=f"{Q}::restore-signals")
+    ctx.check("R-CLEAN-ALWAYS", "after run() returned or raised: leftovers cancelled / removed and remembered as junk, reactor not running", run_f, not clean,
+              "; ".join(sorted(clean)[:3]), examined=n_total, construct=f"{Q}::clean")
+
+    # a platform without SIGCHLD: the signals that exist are still saved and restored, nothing else is touched
+    _, res = sm.run_spinner(ctx, "value", [["start"]], missing_signals=("SIGCHLD",))
+    problems = set()
+    for r in res:
+        log = r.state.get("ev.calls", ())
+        restored = sorted(repr(e[1]) for e in log if e[0] == "signal.signal")
+        want = sorted(repr((("const", n_), ("handler-of", ("const", n_)))) for k_, n_ in sm.SIGNUMS.items() if k_ != "SIGCHLD")
+        if restored != want or (r.kind, r.value) != ("val", sm.USER_VALUE):
+            problems.add(f"without SIGCHLD run() {_show((r.kind, r.value))} and re-installs {restored}")
+    ctx.check("R-RESTORE-SIGNALS", "a signal the platform lacks is skipped, the others are still saved and restored", run_f, bool(res) and not problems, "; ".join(sorted(problems)),
+              examined=len(res), construct=f"{Q}::missing-signal")
+    # a clean reactor leaves no junk
+    _, res = sm.run_spinner(ctx, "value", [["start"]], leftovers=False)
+    ok = bool(res) and all(r.state.get("self._junk") == ("tuple",) and (r.kind, r.value) == ("val", sm.USER_VALUE) for r in res)
+    ctx.check("R-CLEAN-ALWAYS", "a reactor left clean yields no junk", run_f, ok, "run() reports junk (or fails) although nothing was left in the reactor", examined=len(res), construct=f"{Q}::no-junk")
+    # uncleared junk: refused before anything is touched
+    OLD = ("sym", "old-junk")
+    _, res = sm.run_spinner(ctx, "value", [["start"]], junk=(OLD,))
+    problems = set()
+    for r in res:
+        log = r.state.get("ev.calls", ())
+        if not (r.kind == "exc" and isinstance(r.value, tuple) and r.value[:2] == ("new", "StaleJunkError") and r.value[2] == (("tuple", OLD),)):
+            problems.add(f"with uncleared junk run() {_show((r.kind, r.value))} instead of raising StaleJunkError(junk)")
+        touched = sorted({e[0] for e in log if e[0].startswith(("reactor.", "signal.", "user-function"))})
+        if touched:
+            problems.add(f"before refusing, run() already used {touched}")
+        if r.state.get("self._success") != ("sym", "stale-success") or r.state.get("self._junk") != ("tuple", OLD) or r.state.get("self._reactor.stop", sm.REAL_STOP) != sm.REAL_STOP:
+            problems.add("before refusing, run() already changed the spinner's state")
+    ctx.check("R-STALE-JUNK-FIRST", "with uncleared junk run() raises StaleJunkError(junk) before touching reactor, signals or results", run_f, bool(res) and not problems,
+              "; ".join(sorted(problems)), examined=len(res), construct=f"{Q}::stale-junk")
+    # clear_junk hands the junk over and forgets it
+    cls = sm.spinner_class(ctx)
+    cj = own_method(ctx, SPINNER, "Spinner", "clear_junk")
+    dom = effects.EffectDomain(ctx.classes, attrs={"self": ("self",)})
+    res = effects.run(ctx, dom, cj, cls, {}, state=State([("self._junk", ("tuple", OLD))]), depth=2)
+    ok = bool(res) and all(r.kind == "val" and r.value == ("tuple", OLD) and r.state.get("self._junk") == ("tuple",) for r in res)
+    ctx.check("R-STALE-JUNK-FIRST", "clear_junk returns the junk and forgets it", cj, ok, "clear_junk does not return the recorded junk and reset it to empty (the next run would be refused for ever, or junk reported twice)",
+              examined=len(res), construct=f"{SPINNER}:Spinner.clear_junk::clears")
 
 
 def run(ctx):
     ctx.rule("R-RESTORE-STOP", "reactor.stop is re-installed on every path after it was replaced")
     ctx.rule("R-RESTORE-SIGNALS", "signal handlers saved before and restored on every path out of reactor.run()")
-    ctx.rule("R-CLEAN-ALWAYS", "the result is fetched under a finally that cleans the reactor; _clean records all junk")
-    ctx.rule("R-STALE-JUNK-FIRST", "the stale-junk refusal dominates every mutation of process state")
+    ctx.rule("R-CLEAN-ALWAYS", "after run() the reactor is cleaned and all junk recorded")
+    ctx.rule("R-STALE-JUNK-FIRST", "the stale-junk refusal precedes every mutation of process state")
     ctx.rule("R-REENTRANCY-FLAG", "not_reentrant sets its flag after the test and clears it on all paths")
-    ctx.rule("R-RESULT-3WAY", "_get_result: failure -> raise, success -> return it, neither -> NoResultError")
-    ctx.rule("R-CALLBACK-SIBLINGS", "result callbacks cancel the timeout and store into distinct fields; timeout stores TimeoutError and stops")
-    ctx.rule("R-RESULT-RESET", "result fields read by _get_result are reset before the reactor is run")
+    ctx.rule("R-RESULT-3WAY", "run() reports the function's own result, its failure, TimeoutError or NoResultError")
+    ctx.rule("R-CALLBACK-SIBLINGS", "a result arriving first cancels the timeout")
+    ctx.rule("R-RESULT-RESET", "results of a previous run cannot leak into this run")
     ctx.rule("R-TIMEOUT-WINS", "once the timeout has fired, a result arriving later cannot replace the TimeoutError")
-
     spinner = ctx.classes.get(SPINNER, "Spinner")
     run_f = own_method(ctx, SPINNER, "Spinner", "run")
-    cfg = cfg_of(ctx, run_f)
-    live = live_nodes(cfg)
-    Q = f"{SPINNER}:Spinner.run"
-
-    def chk(rule, name, ok, msg, node=None, path=None, construct=None):
-        ctx.check(rule, name, node if node is not None else run_f, ok, msg, path=path,
-                  construct=construct or f"{Q}::{name}")
-
-    # -- slots ---------------------------------------------------------------------------
-    reactor = "self._reactor"
-    stop_attr = f"{reactor}.stop"
-    saved_names = set()
-    install_nodes, restore_nodes = [], []
-    for n in cfg.nodes:
-        if n.id not in live or n.kind != "stmt":
-            continue
-        pairs = assign_pairs(n.ast)
-        for t, v in pairs:
-            if dotted(v) == stop_attr and isinstance(t, ast.Name):
-                saved_names.add(t.id)
-    for n in cfg.nodes:
-        if n.id not in live or n.kind != "stmt":
-            continue
-        for t, v in assign_pairs(n.ast):
-            if dotted(t) == stop_attr:
-                if isinstance(v, ast.Name) and v.id in saved_names:
-                    restore_nodes.append(n.id)
-                else:
-                    install_nodes.append(n.id)
-    run_nodes = nodes_calling(cfg, lambda c: dotted(c.func) == f"{reactor}.run", live)
-    save_nodes = nodes_calling(cfg, lambda c: dotted(c.func) == "self._save_signals", live)
-    restore_sig_nodes = nodes_calling(cfg, lambda c: dotted(c.func) == "self._restore_signals", live)
-    getres_nodes = nodes_calling(cfg, lambda c: dotted(c.func) == "self._get_result", live)
-    clean_nodes = nodes_calling(cfg, lambda c: dotted(c.func) == "self._clean", live)
-    later_nodes = nodes_calling(cfg, lambda c: dotted(c.func) == f"{reactor}.callLater", live)
-    when_nodes = nodes_calling(cfg, lambda c: dotted(c.func) == f"{reactor}.callWhenRunning", live)
-    if len(run_nodes) != 1:
-        raise AnalysisError(f"anchor vanished: expected one {reactor}.run() call in Spinner.run, found {len(run_nodes)}")
-
-    # -- R-RESTORE-STOP --------------------------------------------------------------------
-    chk("R-RESTORE-STOP", "stop replaced exactly once", len(install_nodes) == 1,
-        f"expected one statement installing a replacement for {stop_attr}, found {len(install_nodes)}")
-    if install_nodes:
-        inst = install_nodes[0]
-        esc = cfg.escape_path(cfg.after(inst), set(restore_nodes))
-        chk("R-RESTORE-STOP", "restored on every path", bool(restore_nodes) and esc is None,
-            f"a path from the replacement of {stop_attr} to an exit never re-installs the saved value",
-            node=cfg.nodes[inst].ast, path=cfg.describe_path(esc) if esc else None)
-        chk("R-RESTORE-STOP", "replacement precedes reactor.run", cfg.dominated_by(run_nodes[0], {inst}),
-            "reactor.run() reachable with the real reactor.stop still installed (a signal would stop the reactor for good)")
-        # the saved value is read in the same statement or before the install
-        ok_saved = bool(saved_names)
-        chk("R-RESTORE-STOP", "original saved", ok_saved, f"the original {stop_attr} is never saved to a local")
-        # replacement is self._fake_stop, which crashes instead of stopping
-        repl = [v for t, v in assign_pairs(cfg.nodes[inst].ast) if dotted(t) == stop_attr]
-        fake = own_method(ctx, SPINNER, "Spinner", "_fake_stop", required=False)
-        ok_fake = bool(repl) and dotted(repl[0]) == "self._fake_stop" and fake is not None and any(
-            dotted(c.func) == f"{reactor}.crash" for c in walk_shallow(fake) if isinstance(c, ast.Call))
-        chk("R-RESTORE-STOP", "replacement crashes instead of stopping", ok_fake,
-            "the replacement for reactor.stop is not a method that calls reactor.crash()")
-
-    # -- R-RESTORE-SIGNALS -------------------------------------------------------------------
-    esc = cfg.escape_path(cfg.after(run_nodes[0], exclude=()), set(restore_sig_nodes))
-    chk("R-RESTORE-SIGNALS", "restored on every path out of reactor.run()", bool(restore_sig_nodes) and esc is None,
-        "a path leaves reactor.run() (normally or by exception) without _restore_signals()",
-        path=cfg.describe_path(esc) if esc else None)
-    chk("R-RESTORE-SIGNALS", "saved before reactor.run()", bool(save_nodes) and cfg.dominated_by(run_nodes[0], set(save_nodes)),
-        "reactor.run() reachable without _save_signals()")
-    if save_nodes and restore_sig_nodes:
-        chk("R-RESTORE-SIGNALS", "restore only after save", all(cfg.dominated_by(r, set(save_nodes)) for r in restore_sig_nodes),
-            "_restore_signals() reachable before _save_signals()")
-    save_f = own_method(ctx, SPINNER, "Spinner", "_save_signals")
-    rest_f = own_method(ctx, SPINNER, "Spinner", "_restore_signals")
-    ctx.analysed(save_f)
-    ctx.analysed(rest_f)
     preserved = spinner.attrs.get("_PRESERVED_SIGNALS")
-    names = []
-    if isinstance(preserved, (ast.List, ast.Tuple, ast.Set)):
-        names = [e.value for e in preserved.elts if isinstance(e, ast.Constant)]
+    names = [e.value for e in preserved.elts if isinstance(e, ast.Constant)] if isinstance(preserved, (ast.List, ast.Tuple, ast.Set)) else []
     need = {"SIGINT", "SIGTERM", "SIGCHLD"}
     ctx.check("R-RESTORE-SIGNALS", "preserved signal table covers SIGINT/SIGTERM/SIGCHLD", preserved if preserved is not None else spinner.node,
-              need <= set(names), f"_PRESERVED_SIGNALS = {names} misses {sorted(need - set(names))}",
-              construct=f"{SPINNER}:Spinner::_PRESERVED_SIGNALS")
-    # save: iterates the table, records (sig, getsignal(sig)) for every available signal
-    iter_table = any(
-        isinstance(n, ast.comprehension) and dotted(n.iter) == "self._PRESERVED_SIGNALS"
-        or isinstance(n, ast.For) and dotted(n.iter) == "self._PRESERVED_SIGNALS"
-        for n in ast.walk(save_f))
-    getsig = [c for c in ast.walk(save_f) if isinstance(c, ast.Call) and dotted(c.func) == "signal.getsignal"]
-    stores = [n for n in ast.walk(save_f) if isinstance(n, ast.Assign) and any(dotted(t) == "self._saved_signals" for t in n.targets)]
-    pair_ok = False
-    for s in stores:
-        for n in ast.walk(s.value):
-            if isinstance(n, ast.Tuple) and len(n.elts) == 2 and isinstance(n.elts[1], ast.Call) and dotted(n.elts[1].func) == "signal.getsignal":
-                a0 = n.elts[1].args[0] if n.elts[1].args else None
-                if norm(a0) == norm(n.elts[0]):
-                    pair_ok = True
-    ctx.check("R-RESTORE-SIGNALS", "_save_signals records (sig, getsignal(sig)) for every preserved name", save_f,
-              iter_table and bool(getsig) and pair_ok,
-              "_save_signals does not iterate _PRESERVED_SIGNALS storing (sig, signal.getsignal(sig)) pairs",
-              construct=f"{SPINNER}:Spinner._save_signals::pairs")
-    # restore: loop over self._saved_signals calling signal.signal(sig, hdlr) with the pair in order
-    rest_ok = False
-    early_exit = False
-    for n in ast.walk(rest_f):
-        if isinstance(n, ast.For) and dotted(n.iter) == "self._saved_signals" and isinstance(n.target, ast.Tuple) and len(n.target.elts) == 2:
-            a, b = (norm(e) for e in n.target.elts)
-            for c in ast.walk(n):
-                if isinstance(c, ast.Call) and dotted(c.func) == "signal.signal" and len(c.args) == 2:
-                    if norm(c.args[0]) == a and norm(c.args[1]) == b:
-                        rest_ok = True
-            for c in ast.walk(n):
-                if isinstance(c, (ast.Break, ast.Return, ast.Continue)):
-                    early_exit = True
-    ctx.check("R-RESTORE-SIGNALS", "_restore_signals re-installs every saved pair", rest_f, rest_ok and not early_exit,
-              "_restore_signals does not call signal.signal(sig, handler) for every saved pair",
-              construct=f"{SPINNER}:Spinner._restore_signals::loop")
-
-    # -- R-CLEAN-ALWAYS -----------------------------------------------------------------------
-    chk("R-CLEAN-ALWAYS", "result fetched once", len(getres_nodes) == 1, f"expected one self._get_result() call, found {len(getres_nodes)}")
-    if getres_nodes:
-        esc = cfg.escape_path(cfg.after(getres_nodes[0], exclude=()), set(clean_nodes))
-        chk("R-CLEAN-ALWAYS", "cleaned on every path out of the result fetch", bool(clean_nodes) and esc is None,
-            "a path leaves _get_result() (return or raise) without _clean()", path=cfg.describe_path(esc) if esc else None)
-        chk("R-CLEAN-ALWAYS", "result fetched after the reactor ran", cfg.dominated_by(getres_nodes[0], set(run_nodes)),
-            "_get_result() reachable without reactor.run()")
-        # every return of run() returns the value of _get_result()
-        rets = [n for n in cfg.nodes if n.id in live and n.kind == "return"]
-        ok = bool(rets) and all(isinstance(r.ast.value, ast.Call) and dotted(r.ast.value.func) == "self._get_result" for r in rets)
-        implicit = [a for a, k in cfg.pred[cfg.exit_return] if a in live and cfg.nodes[a].kind not in ("return", "with_exit") and not cfg.nodes[a].clone]
-        chk("R-CLEAN-ALWAYS", "run() returns the function's own result", ok and not implicit,
-            "run() has a return that is not the value of _get_result() (or can fall off the end)")
-    clean_f = own_method(ctx, SPINNER, "Spinner", "_clean")
-    ctx.analysed(clean_f)
-    loops = {}
-    for n in walk_shallow(clean_f, include_self=False):
-        if isinstance(n, ast.For) and isinstance(n.iter, ast.Call):
-            loops[dotted(n.iter.func)] = n
-    junk_lists = set()
-    for key, must_cancel in ((f"{reactor}.getDelayedCalls", True), (f"{reactor}.removeAll", False)):
-        loop = loops.get(key)
-        ok = False
-        msg = f"_clean has no loop over {key}()"
-        if loop is not None and isinstance(loop.target, ast.Name):
-            var = loop.target.id
-            cancels = [c for c in walk_shallow(loop) if isinstance(c, ast.Call) and dotted(c.func) == f"{var}.cancel"]
-            appends = [c for c in walk_shallow(loop) if isinstance(c, ast.Call) and isinstance(c.func, ast.Attribute) and c.func.attr == "append" and c.args and dotted(c.args[0]) == var]
-            jumps = [c for c in walk_shallow(loop) if isinstance(c, (ast.Break, ast.Continue, ast.Return))]
-            conditional = [c for c in loop.body if isinstance(c, (ast.If, ast.Try, ast.While))]
-            ok = bool(appends) and (bool(cancels) or not must_cancel) and not jumps and not conditional
-            for a in appends:
-                junk_lists.add(dotted(a.func.value))
-            msg = f"loop over {key}() does not {'cancel and ' if must_cancel else ''}record every element unconditionally"
-        ctx.check("R-CLEAN-ALWAYS", f"_clean handles every element of {key.split('.')[-1]}()", loop if loop is not None else clean_f, ok, msg,
-                  construct=f"{SPINNER}:Spinner._clean::{key}")
-    ext = [c for c in walk_shallow(clean_f, include_self=False) if isinstance(c, ast.Call) and dotted(c.func) == "self._junk.extend" and c.args and dotted(c.args[0]) in junk_lists]
-    ccfg = cfg_of(ctx, clean_f)
-    ext_nodes = nodes_calling(ccfg, lambda c: dotted(c.func) == "self._junk.extend")
-    esc = ccfg.escape_path([ccfg.entry], set(ext_nodes), targets=[ccfg.exit_return])
-    ctx.check("R-CLEAN-ALWAYS", "_clean remembers the junk it found", clean_f, bool(ext) and esc is None,
-              "_clean can return without adding what it found to self._junk (the next run would not refuse)",
-              construct=f"{SPINNER}:Spinner._clean::remember")
-
-    # -- R-STALE-JUNK-FIRST ----------------------------------------------------------------------
-    raise_nodes = [n.id for n in cfg.nodes if n.id in live and n.kind == "raise" and isinstance(n.ast, ast.Raise) and n.ast.exc is not None
-                   and "StaleJunkError" in norm(n.ast.exc)]
-    chk("R-STALE-JUNK-FIRST", "refusal present", len(raise_nodes) == 1, "run() no longer raises StaleJunkError")
-    if raise_nodes:
-        rn = cfg.nodes[raise_nodes[0]].ast
-        guard = getattr(rn, "_parent", None)
-        guard_ok = isinstance(guard, ast.If) and rn in guard.body
-        junk_sources = set()
-        for n in walk_shallow(run_f, include_self=False):
-            if isinstance(n, ast.Assign) and (
-                (isinstance(n.value, ast.Call) and dotted(n.value.func) == "self.get_junk") or dotted(n.value) == "self._junk"):
-                for t in n.targets:
-                    if isinstance(t, ast.Name):
-                        junk_sources.add(t.id)
-        cond_ok = guard_ok and (
-            (isinstance(guard.test, ast.Name) and guard.test.id in junk_sources)
-            or norm(guard.test) in ("self._junk", "self.get_junk()"))
-        chk("R-STALE-JUNK-FIRST", "refusal tests the recorded junk", bool(cond_ok),
-            "the StaleJunkError guard does not test the junk recorded by the previous run", node=guard if guard_ok else rn)
-        if guard_ok:
-            gnodes = set(cfg.nodes_for(guard.test)) | {n.id for n in cfg.nodes if n.ast is guard and n.kind == "test"}
-            for label, targets in (("signal save", save_nodes), ("timeout call", later_nodes),
-                                   ("stop replacement", install_nodes), ("reactor.run", run_nodes),
-                                   ("callWhenRunning", when_nodes)):
-                ok = bool(targets) and all(cfg.dominated_by(t, gnodes) for t in targets)
-                chk("R-STALE-JUNK-FIRST", f"junk check dominates {label}", ok,
-                    f"{label} is reachable without passing the stale-junk check")
-    # -- R-RESULT-RESET ---------------------------------------------------------------------------
-    getres = own_method(ctx, SPINNER, "Spinner", "_get_result")
-    fields = sorted({ch[1] for n in ast.walk(getres) if isinstance(n, ast.Attribute) and (ch := attr_chain(n)) and ch[0] == "self" and len(ch) == 2 and ch[1] not in ("_UNSET",) and isinstance(n.ctx, ast.Load) and not isinstance(getattr(n, "_parent", None), ast.Call)})
-    # keep only data fields (assigned in __init__ from the sentinel)
-    init = own_method(ctx, SPINNER, "Spinner", "__init__")
-    sentinel_fields = {dotted(t).split(".")[1] for n in ast.walk(init) if isinstance(n, ast.Assign) and dotted(n.value) == "self._UNSET" for t in n.targets if dotted(t)}
-    for fld in sorted(sentinel_fields):
-        resets = [n.id for n in cfg.nodes if n.id in live and n.kind == "stmt" and any(
-            dotted(t) == f"self.{fld}" and dotted(v) == "self._UNSET" for t, v in assign_pairs(n.ast))]
-        ok = bool(resets) and cfg.dominated_by(run_nodes[0], set(resets))
-        ctx.check("R-RESULT-RESET", f"Spinner.run resets self.{fld} before spinning", run_f, ok,
-                  f"self.{fld} still holds the previous run's value when the reactor is started: a reused Spinner returns / re-raises a stale result",
-                  construct=f"{Q}::reset {fld}")
-    ctx.floor("R-RESULT-RESET", 2, "result fields")
-
-    # -- R-RESULT-3WAY -----------------------------------------------------------------------------
-    gcfg = cfg_of(ctx, getres)
-    glive = live_nodes(gcfg)
-    rets = [n for n in gcfg.nodes if n.id in glive and n.kind == "return"]
-    ok_rets = bool(rets) and all(dotted(r.ast.value) == "self._success" for r in rets)
-    ctx.check("R-RESULT-3WAY", "_get_result returns only the stored success value", getres, ok_rets,
-              "_get_result has a return that is not self._success", construct=f"{SPINNER}:Spinner._get_result::returns")
-    implicit = [a for a, k in gcfg.pred[gcfg.exit_return] if a in glive and gcfg.nodes[a].kind != "return"]
-    ctx.check("R-RESULT-3WAY", "_get_result never falls off the end", getres, not implicit,
-              "a path through _get_result returns None implicitly instead of raising NoResultError",
-              path=[gcfg.nodes[a].describe() for a in implicit] or None, construct=f"{SPINNER}:Spinner._get_result::no-implicit-return")
-    raises = [n for n in gcfg.nodes if n.id in glive and n.kind == "raise" and isinstance(n.ast, ast.Raise) and n.ast.exc is not None and "NoResultError" in norm(n.ast.exc)]
-    ctx.check("R-RESULT-3WAY", "neither -> NoResultError", getres, len(raises) == 1, "_get_result no longer raises NoResultError when there is no result",
-              construct=f"{SPINNER}:Spinner._get_result::noresult")
-    rex = nodes_calling(gcfg, lambda c: dotted(c.func) == "self._failure.raiseException", glive)
-    guard_ok = False
-    ret_guard_ok = False
-    for n in gcfg.nodes:
-        if n.id in glive and n.kind == "test":
-            t = norm(n.ast.test)
-            if t == "self._failure is not self._UNSET" and any(b in rex for b, k in gcfg.succ[n.id] if k == "true"):
-                guard_ok = True
-            if t == "self._success is not self._UNSET" and any(gcfg.nodes[b].kind == "return" for b, k in gcfg.succ[n.id] if k == "true"):
-                ret_guard_ok = True
-    ctx.check("R-RESULT-3WAY", "failure -> raise it (guarded by the sentinel test)", getres, bool(rex) and guard_ok,
-              "the stored failure is not raised exactly when it differs from the sentinel", construct=f"{SPINNER}:Spinner._get_result::failure-arm")
-    ctx.check("R-RESULT-3WAY", "success -> return it (guarded by the sentinel test)", getres, ret_guard_ok,
-              "the stored success is not returned exactly when it differs from the sentinel", construct=f"{SPINNER}:Spinner._get_result::success-arm")
-    if raises and rets:
-        # the NoResultError raise is only reachable when both tests failed
-        ok = not any(raises[0].id in gcfg.reach(gcfg.after(r.id)) for r in rets)
-        ctx.check("R-RESULT-3WAY", "arms are exclusive", getres, ok, "NoResultError reachable after returning", construct=f"{SPINNER}:Spinner._get_result::exclusive")
-
-    # -- R-CALLBACK-SIBLINGS ---------------------------------------------------------------------------
-    stored = {}
-    for name, fld in (("_got_success", "_success"), ("_got_failure", "_failure")):
-        f = own_method(ctx, SPINNER, "Spinner", name)
-        ctx.analysed(f)
-        param = f.args.args[1].arg if len(f.args.args) > 1 else None
-        cancels = [c for c in walk_shallow(f) if isinstance(c, ast.Call) and dotted(c.func) == "self._cancel_timeout"]
-        st = [n for n in walk_shallow(f) if isinstance(n, ast.Assign) and any(dotted(t) == f"self.{fld}" for t in n.targets) and dotted(n.value) == param]
-        others = [n for n in walk_shallow(f) if isinstance(n, ast.Assign) and any((dotted(t) or "").startswith("self._") and dotted(t) not in (f"self.{fld}",) and dotted(t) in ("self._success", "self._failure") for t in n.targets)]
-        stored[name] = fld
-        # (what the callbacks do is decided on their abstract run, see check_timeout_wins)
-    to = own_method(ctx, SPINNER, "Spinner", "_timed_out")
-    ctx.analysed(to)
-    fail_store = [n for n in walk_shallow(to) if isinstance(n, ast.Assign) and any(dotted(t) == "self._failure" for t in n.targets)]
-    mentions_timeout = any("TimeoutError" in norm(n) for n in walk_shallow(to))
-    stops = [c for c in walk_shallow(to) if isinstance(c, ast.Call) and dotted(c.func) == "self._stop_reactor"]
-    wraps_failure = any(isinstance(n.value, ast.Call) and dotted(n.value.func) == "Failure" for n in fail_store)
-    ctx.check("R-CALLBACK-SIBLINGS", "_timed_out stores a TimeoutError failure and stops the reactor", to,
-              len(fail_store) == 1 and wraps_failure and mentions_timeout and bool(stops),
-              "_timed_out must set self._failure = Failure(TimeoutError(...)) and call _stop_reactor()",
-              construct=f"{SPINNER}:Spinner._timed_out::shape")
-    sr = own_method(ctx, SPINNER, "Spinner", "_stop_reactor")
-    crash = [c for c in walk_shallow(sr) if isinstance(c, ast.Call) and dotted(c.func) == f"{reactor}.crash"]
-    ctx.check("R-CALLBACK-SIBLINGS", "_stop_reactor crashes the reactor", sr, bool(crash), "_stop_reactor no longer calls reactor.crash()",
-              construct=f"{SPINNER}:Spinner._stop_reactor::crash")
-    # the timeout call uses the timeout parameter and _timed_out
-    tparam = run_f.args.args[1].arg
-    fparam = run_f.args.args[2].arg
-    ok = False
-    for nid in later_nodes:
-        for c in node_calls(cfg.nodes[nid]):
-            if dotted(c.func) == f"{reactor}.callLater" and len(c.args) >= 2 and dotted(c.args[0]) == tparam and dotted(c.args[1]) == "self._timed_out":
-                # stored so that the callbacks can cancel it
-                st = cfg.nodes[nid].ast
-                if isinstance(st, ast.Assign) and any(dotted(t) == "self._timeout_call" for t in st.targets):
-                    ok = True
-    chk("R-CALLBACK-SIBLINGS", "timeout scheduled with the timeout parameter and kept for cancellation", ok,
-        f"expected self._timeout_call = {reactor}.callLater({tparam}, self._timed_out, ...)")
-    # run_function: maybeDeferred(function, *args, **kwargs); addCallbacks(success, failure); addBoth(stop)
-    inner = [n for n in run_f.body if False]
-    inner = [n for n in ast.walk(run_f) if isinstance(n, FUNC_TYPES) and n is not run_f]
-    scheduled = set()
-    for nid in when_nodes:
-        for c in node_calls(cfg.nodes[nid]):
-            if dotted(c.func) == f"{reactor}.callWhenRunning" and c.args:
-                scheduled.add(dotted(c.args[0]))
-    rf = [f for f in inner if f.name in scheduled]
-    ok = False
-    msg = "the function scheduled with callWhenRunning was not found"
-    if len(rf) == 1:
-        f = rf[0]
-        ctx.analysed(f)
-        md = [n for n in walk_shallow(f, include_self=False) if isinstance(n, ast.Assign) and isinstance(n.value, ast.Call) and dotted(n.value.func) == "defer.maybeDeferred"]
-        ok_md = False
-        dname = None
-        if len(md) == 1 and isinstance(md[0].targets[0], ast.Name):
-            dname = md[0].targets[0].id
-            c = md[0].value
-            va = run_f.args.vararg.arg if run_f.args.vararg else None
-            kw = run_f.args.kwarg.arg if run_f.args.kwarg else None
-            ok_md = (c.args and dotted(c.args[0]) == fparam
-                     and any(isinstance(a, ast.Starred) and dotted(a.value) == va for a in c.args)
-                     and any(k.arg is None and dotted(k.value) == kw for k in c.keywords))
-        seq = [c for s in f.body for c in walk_shallow(s) if isinstance(c, ast.Call) and dname and (dotted(c.func) or "").startswith(dname + ".")]
-        names_ = [dotted(c.func).split(".", 1)[1] for c in seq]
-        ok_cb = False
-        if names_[:2] == ["addCallbacks", "addBoth"]:
-            cb, both = seq[0], seq[1]
-            ok_cb = (len(cb.args) == 2 and dotted(cb.args[0]) == "self._got_success" and dotted(cb.args[1]) == "self._got_failure"
-                     and len(both.args) == 1 and dotted(both.args[0]) == "self._stop_reactor")
-        ok = ok_md and ok_cb and len(seq) == 2
-        msg = ("run_function must be: d = defer.maybeDeferred(function, *args, **kwargs); "
-               "d.addCallbacks(self._got_success, self._got_failure); d.addBoth(self._stop_reactor)")
-    chk("R-CALLBACK-SIBLINGS", "function's Deferred gets both result callbacks and then the reactor stop", ok, msg)
-    # _spinning is set before reactor.run() so that _stop_reactor acts
-    spin_nodes = [n.id for n in cfg.nodes if n.id in live and n.kind == "stmt" and any(dotted(t) == "self._spinning" and isinstance(v, ast.Constant) and v.value is True for t, v in assign_pairs(n.ast))]
-    chk("R-CALLBACK-SIBLINGS", "spinning flag set before reactor.run()", bool(spin_nodes) and cfg.dominated_by(run_nodes[0], set(spin_nodes)),
-        "reactor.run() reachable with self._spinning unset: _stop_reactor would not stop the reactor")
-    chk("R-CALLBACK-SIBLINGS", "function scheduled before reactor.run()", bool(when_nodes) and cfg.dominated_by(run_nodes[0], set(when_nodes)),
-        "reactor.run() reachable without the function having been scheduled")
-
-    # -- R-REENTRANCY-FLAG ---------------------------------------------------------------------------
+              need <= set(names), f"_PRESERVED_SIGNALS = {names} misses {sorted(need - set(names))}", construct=f"{SPINNER}:Spinner::_PRESERVED_SIGNALS")
+    check_spinner_scenarios(ctx)
     check_reentrancy_guard(ctx)
     decos = [dotted(d) for d in run_f.decorator_list]
     ctx.check("R-REENTRANCY-FLAG", "Spinner.run is decorated with not_reentrant", run_f, "not_reentrant" in decos,
-              "Spinner.run lost its @not_reentrant decorator", construct=f"{Q}::decorator")
-    ctx.assume("reactor.crash() stops a running reactor; signal.signal/getsignal behave as documented")
+              "Spinner.run lost its @not_reentrant decorator", construct=f"{SPINNER}:Spinner.run::decorator")
+    ctx.floor("R-RESULT-3WAY", 9)
+    ctx.floor("R-TIMEOUT-WINS", 2)
+    ctx.floor("R-CALLBACK-SIBLINGS", 2)
+    ctx.assume("reactor.crash() ends the reactor loop after the current iteration; signal.signal/getsignal behave as documented; the reactor catches exceptions of the calls it makes")
     ctx.assume("attribute stores on self._reactor do not raise")
-    check_timeout_wins(ctx)
